@@ -24,6 +24,8 @@ type concHist struct {
 	mu    sync.Mutex
 	marks map[string][]*marker // sendID -> markers that saw it
 	ops   []*hop
+	// foreign: a marker (the first node of its pipeline) found the mark of another pipeline's marker on its event
+	foreign string
 }
 
 type marker struct {
@@ -35,8 +37,15 @@ type marker struct {
 
 func (m *marker) Process(ctx context.Context, e *eventlogger.Event) (*eventlogger.Event, error) {
 	if t, ok := e.Payload.(*Tok); ok {
+		// every pipeline works on an Event of its own: what the first node of another pipeline stored is not there
+		prev, seen := e.Format("mark")
+		own := fmt.Sprintf("%s|%s|v%d", m.typ, m.pid, m.ver)
+		e.FormattedAs("mark", []byte(own))
 		m.h.mu.Lock()
 		m.h.marks[t.S] = append(m.h.marks[t.S], m)
+		if seen && m.h.foreign == "" {
+			m.h.foreign = fmt.Sprintf("Send %s: the first node of pipeline %s received an Event that already carries the format stored by the first node of pipeline %s", t.S, own, prev)
+		}
 		m.h.mu.Unlock()
 	}
 	return e, nil
@@ -467,6 +476,12 @@ func checkLin(run *rt.Run, name, key string, model porcupine.Model, ops []porcup
 
 // analyse checks one finished concurrent history.
 func (w *concWorld) analyse(run *rt.Run, wit func() any) {
+	w.h.mu.Lock()
+	foreign := w.h.foreign
+	w.h.mu.Unlock()
+	if foreign != "" {
+		run.Violation("history-pattern:shared-event", foreign, wit())
+	}
 	h := w.h
 	h.mu.Lock()
 	ops := append([]*hop(nil), h.ops...)
